@@ -266,6 +266,29 @@ def t2_context_tables(ctx: Ctx):
     default = [c for m in [n for n in ast.walk(fc) if isinstance(n, ast.Match) and norm(n.subject) == 'ctx'] for c in m.cases
                if isinstance(c.pattern, ast.MatchAs) and c.pattern.pattern is None and c.guard is None]
     ctx.check(len(default) == 1 and isinstance(default[0].body[0], ast.Raise), FCTX, fc, 'FPCoreContext.from_context', 'any other context is refused', 'default arm changed')
+    # a parameter of the context that FPCore has no spelling for is not dropped: with random bits, or (for a float
+    # format, whose :precision always overflows to the infinity) another overflow mode, no core is produced
+    from ..cfg import CFG, describe_path, find_path
+    cfg = CFG(fc)
+    stoch = [t for t in cfg.nodes_of('test') if norm(t.ast) == 'ctx.is_stochastic()']
+    ov = [t for t in cfg.nodes_of('test') if norm(t.ast) in ('ctx.overflow is not OV.OVERFLOW', 'ctx.overflow is not OverflowMode.OVERFLOW')]
+    ieee_rets = [r for r in cfg.returns() if 'precision=' in norm(r.ast) and any(s in norm(r.ast) for s in ("'binary", "'float'"))]
+    if len(ieee_rets) < 6:
+        raise ShapeError('from_context: the IEEE returns were not found')
+    bad = None
+    for r in cfg.returns():
+        p = find_path(cfg, cfg.entry, r, edge_ok=lambda n, lab: not (n in stoch and lab is False))
+        if (p is not None or not stoch) and bad is None:
+            bad = (r, p)
+    ctx.check(bad is None, FCTX, bad[0].ast if bad else fc, 'FPCoreContext.from_context', 'a context with random bits is never given an FPCore spelling',
+              'a stochastic context is written as its deterministic base: the core rounds the same way on every run', path=describe_path(bad[1], FCTX) if bad and bad[1] else None)
+    bad = None
+    for r in ieee_rets:
+        p = find_path(cfg, cfg.entry, r, edge_ok=lambda n, lab: not (n in ov and lab is False))
+        if (p is not None or not ov) and bad is None:
+            bad = (r, p)
+    ctx.check(bad is None, FCTX, bad[0].ast if bad else fc, 'FPCoreContext.from_context', 'a float format is written only with the overflow-to-infinity mode FPCore gives it',
+              'FP16 with overflow=SATURATE is written as plain binary16: 300 * 300 is 65504 interpreted and +inf in the core', path=describe_path(bad[1], FCTX) if bad and bad[1] else None)
 
 
 # ----------------------------------------------------------------------
@@ -714,6 +737,9 @@ RULES = [
 from ..selftest import Mutant  # noqa: E402
 
 MUTANTS = [
+    Mutant('overflow-mode-of-a-float-format-dropped', FCTX, "                if ctx.overflow is not OV.OVERFLOW:", "                if False:", 'C12.T2',
+           'finding F81 before its repair: FP16 with overflow=SATURATE compiled as binary16'),
+    Mutant('random-bits-dropped', FCTX, "        if ctx.is_stochastic():\n            # FPCore has no property for random bits", "        if False:\n            # FPCore has no property for random bits", 'C12.T2'),
     Mutant('reader-unwraps-every-property', FRONT, "                    new_props[pythonize_id(k)] = self._visit_data(v.value) if isinstance(v, fpc.Data) else v", "                    new_props[pythonize_id(k)] = self._visit_data(v.value)", 'C12.R4',
            'finding F69 before its repair: Function.from_fpcore on the compiled core of sum(xs) raises AttributeError'),
     Mutant('comprehension-index-reads-a-fixed-name', BACK, "                    idx_expr = fpc.Ctx(idx_ctx, fpc.Div(fpc.Var(iter_id), mul_expr))", "                    idx_expr = fpc.Ctx(idx_ctx, fpc.Div(fpc.Var('k'), mul_expr))", 'C12.W3',
